@@ -1,5 +1,8 @@
 import Proofs.Lemmas.RegConc
+import Proofs.Lemmas.CpmConc
+import Proofs.Lemmas.Cpm
 import Generated.C10VmLocks
+import Generated.C10PathLocks
 /-!
 # C10 — VM registries stay consistent under concurrent definition and lookup
 
@@ -12,6 +15,14 @@ Property theorems only.
 * `Generated.C10VmLocks` — regenerated from `runtime/vm.go` on every run: every
   access to a registry map with the half of `vm.mu` held at that point, every call
   made while the lock is held.
+* `Model.Cpm` — the class-path manager (`parser/class_path_manager.go`) that every
+  lookup missing the VM's maps continues into: the tree of namespace nodes with
+  lazily memoised children, `AddNamespace`, `FindClassFile` as coded.
+* `Generated.C10PathLocks` — regenerated from `parser/class_path_manager.go` on
+  every run: every access to the `children` map / `paths` slice of a namespace node
+  (also through helpers such as `findNamespaceNode`) with the half of the manager's
+  mutex held there, every call made while it is held, and any other mutex-carrying
+  struct or variable of the resolution-path packages the translator does not know.
 
 Trusted, not proved: `sync.RWMutex` behaves as `Model.RW.enter/leave`; Go's memory
 model (accesses that never overlap conflictingly behave atomically).  The race
@@ -115,6 +126,126 @@ def generatedLock : String → Mode := methodMode Generated.C10VmLocks.apiFacts
 /-- **Obligation.** The table read off the facts is disciplined for every registry call
 of `Model.Reg.Op` (writers hold `Lock`, readers `RLock`). -/
 theorem C10_generated_lock_table : discB generatedLock = true := by decide
+
+/-! ## The resolution path behind the registry maps: the class-path manager -/
+
+/-- **Obligation (regenerated every run).** In the current `parser/class_path_manager.go`
+every write of a namespace node's `children` map or `paths` slice — including the
+memoising insert of `findNamespaceNode`, reached from `FindClassFile` — happens under
+`m.mu.Lock`, every read under `RLock` or `Lock`, nothing that can load a class or take
+the mutex again is called while it is held, the translator understood every method, and
+no other struct / package-level variable of `parser/` and `runtime/` carries a mutex the
+translator does not know.  (A `FindClassFile` that takes only `RLock` fails here with
+`findNamespaceNode:children:write-under-RLock`.) -/
+theorem C10_path_locks_disciplined :
+    violations Generated.C10PathLocks.facts Generated.C10PathLocks.heldCalls Generated.C10PathLocks.shape = [] := by
+  decide
+
+/-- the lock each exported method of the class-path manager holds around its accesses of
+the namespace tree, read off the regenerated facts -/
+def pathLock : String → Mode := methodMode Generated.C10PathLocks.apiFacts
+
+/-- **Obligation.** Both calls of `Model.Cpm.Op` write the tree (`FindClassFile` memoises),
+so both hold `Lock` in the table read off the facts. -/
+theorem C10_path_lock_table : Proofs.CpmConc.discB pathLock = true := by decide
+
+/-- **Exclusion and linearizability of the class-path manager** for the regenerated lock
+table, over every file system `d`: goroutines (parser clones, request handlers, coroutines)
+issue arbitrary sequences of `AddNamespace` / `FindClassFile`; under every schedule no two of
+them are inside conflicting accesses of the namespace tree, every goroutine has received
+exactly the answers the *sequential* manager `Model.Cpm.step` gives when the completed calls
+are executed one after the other in the order of their release, and whenever no writer is
+inside, the tree (with everything memoised so far) is the tree of that sequential run. -/
+theorem C10_path_linearizable_generated (d : Model.Cpm.Disk) (progs : Tid → List Model.Cpm.Op) (sched : List Tid) :
+    let s := run (mkInit Model.Cpm.init (fun _ => []) (fun t => (progs t).map (Model.Cpm.secOf d pathLock))) sched
+    let lin := s.log.map (fun e => (e.1, e.2.lbl))
+    (∀ t, ((lin.filter (fun e => e.1 == t)).map (·.2)) ++ (s.thr t).pc.sec.map (·.lbl) ++
+        (s.thr t).prog.map (·.lbl) = progs t) ∧
+    (∀ t, (s.thr t).pc = .idle →
+        (s.thr t).loc = (Proofs.CpmConc.cpmRun d lin (Model.Cpm.init, fun _ => [])).2 t) ∧
+    (s.writer = none → s.store = Model.Cpm.runOps d Model.Cpm.init (lin.map (·.2))) ∧
+    (∀ t1 t2, ¬ Conflict s t1 t2) := by
+  intro s lin
+  have hd := Proofs.CpmConc.disc_of_discB pathLock C10_path_lock_table
+  have hok : ∀ t, ∀ sec ∈ (progs t).map (Model.Cpm.secOf d pathLock), sec.ok := by
+    intro t sec hs
+    obtain ⟨op, _, rfl⟩ := List.mem_map.mp hs
+    exact Proofs.CpmConc.secOf_ok d pathLock hd op
+  obtain ⟨hord, hloc, hst⟩ := RW_linearizable Model.Cpm.init (fun _ => []) _ hok sched
+  have hlog : ∀ e ∈ s.log, e.2 = Model.Cpm.secOf d pathLock e.2.lbl := by
+    intro e he
+    have h1 := mem_logOf s.log e he
+    have h2 : e.2 ∈ (progs e.1).map (Model.Cpm.secOf d pathLock) := by
+      rw [← hord e.1]
+      exact List.mem_append_left _ (List.mem_append_left _ h1)
+    obtain ⟨op, _, hop⟩ := List.mem_map.mp h2
+    rw [← hop]; rfl
+  have hw := Proofs.CpmConc.seqExec_secOf d pathLock s.log hlog (Model.Cpm.init, fun _ => [])
+  refine ⟨?_, ?_, ?_, fun t1 t2 => RW_exclusion _ _ _ hok sched t1 t2⟩
+  · intro t
+    have h := congrArg (List.map (·.lbl)) (hord t)
+    simp only [List.map_append, List.map_map] at h
+    rw [← logOf_map_lbl]
+    have hid : (List.map ((fun x => x.lbl) ∘ Model.Cpm.secOf d pathLock) (progs t)) = progs t := by
+      rw [show ((fun x => x.lbl) ∘ Model.Cpm.secOf d pathLock) = id from rfl]; simp
+    rw [hid] at h
+    exact h
+  · intro t hi
+    have := hloc t hi
+    rw [hw] at this
+    exact this
+  · intro hn
+    have := hst hn
+    rw [hw, Proofs.CpmConc.cpmRun_store] at this
+    exact this
+
+/-- the protocol of a `FindClassFile` that takes only the read half of the mutex although
+`findNamespaceNode` inserts into `children` -/
+def findUnderRLock : Sec Unit Unit Unit := ⟨(), .R, [.wr "children" (fun l s => (l, s))]⟩
+
+/-- **Discipline is necessary for the manager too**: two goroutines resolving not-yet-visited
+namespaces under `RLock` are both inside the insert into `children` after four steps (Go:
+`fatal error: concurrent map writes`).  The harness's `find` / `parse` / `load` / `temp`
+streams look for exactly this on the real code. -/
+theorem C10_path_exclusion_needs_lock :
+    Conflict (run (mkInit () (fun _ => ()) (fun t => if t < 2 then [findUnderRLock] else [])) [0, 1, 0, 1]) 0 1 := by
+  refine ⟨by decide, .wr "children" (fun l s => (l, s)), .wr "children" (fun l s => (l, s)), ?_, ?_, rfl, .inl rfl⟩ <;> rfl
+
+/-- **A registered namespace directory stays visible to every later lookup** (the class-path
+manager's share of "every registration that reported success is visible"): after
+`AddNamespace(ns, path)` with an existing path, whatever `AddNamespace` / `FindClassFile` calls
+follow (each of them may memoise further nodes), the node of `ns` still lists `path`, and a
+lookup of any class of that namespace whose file lies in `path` finds a file — without
+memoising anything, i.e. from then on such a lookup really is read-only.  Holds for every
+well-formed tree (root present, prefix-closed), in particular for every tree reachable from
+the empty manager (`Proofs.Cpm.runOps_spec`). -/
+theorem C10_path_registered_visible (d : Model.Cpm.Disk) (ns : Model.Cpm.Nodes) (hwf : Proofs.Cpm.WF ns)
+    (parts : List String) (path : Model.Cpm.Dir) (ops : List Model.Cpm.Op)
+    (hparts : parts ≠ []) (hpath : path ≠ "") (hex : d.exist path = true) :
+    let ns₂ := Model.Cpm.runOps d (Model.Cpm.addNamespace d ns parts path) ops
+    (∃ ps, Model.Cpm.look ns₂ parts = some ps ∧ path ∈ ps) ∧
+    ∀ cls full f, d.file path cls = some f →
+      (Model.Cpm.find d ns₂ parts cls full).2 ≠ none ∧ (Model.Cpm.find d ns₂ parts cls full).1 = ns₂ := by
+  intro ns₂
+  have hadd : Model.Cpm.addNamespace d ns parts path = Model.Cpm.addWalk ns [] parts path := by
+    simp [Model.Cpm.addNamespace, hpath, hex]
+  obtain ⟨a1, a2, a3⟩ := Proofs.Cpm.addWalk_spec parts path ns [] hwf.2 hwf.1
+  have hwf1 : Proofs.Cpm.WF (Model.Cpm.addNamespace d ns parts path) := by
+    rw [hadd]; exact ⟨a2.exists hwf.1, a1⟩
+  obtain ⟨_, hm⟩ := Proofs.Cpm.runOps_spec d ops _ hwf1
+  obtain ⟨ps, hps, hin⟩ := a3 hparts
+  simp only [List.nil_append] at hps
+  obtain ⟨ps', hps', hsub⟩ := hm parts ps (by rw [hadd]; exact hps)
+  have hall : Proofs.Cpm.AllNodes ns₂ [] parts :=
+    Proofs.Cpm.allNodes_mono hm [] parts (by rw [hadd]; exact Proofs.Cpm.addWalk_allNodes parts path ns [] hwf.2 hwf.1)
+  refine ⟨⟨ps', hps', hsub _ hin⟩, fun cls full f hf => ?_⟩
+  have hw := Proofs.Cpm.walk_allNodes d parts ns₂ [] hall
+  simp only [List.nil_append] at hw
+  have hps'' : Model.Cpm.look ns₂ parts = some ps' := hps'
+  have hfind : Model.Cpm.find d ns₂ parts cls full = (ns₂, Model.Cpm.findFile d cls full ps') := by
+    simp only [Model.Cpm.find, hw, hps'']
+  rw [hfind]
+  exact ⟨Proofs.Cpm.findFile_hit d cls full ps' path f (hsub _ hin) hf, rfl⟩
 
 /-! ## The registry behind the lock -/
 
@@ -408,5 +539,34 @@ example :
     trace Model.Reg.init [.addIface ⟨"Foo".toList, 1, some 1⟩, .addClass ⟨"Foo".toList, 2, some 1⟩,
       .getClass "Foo".toList, .lookPkg "Foo".toList]
     = [.ok, .ok, .miss, .hitI 1] := by decide
+
+/-- the regenerated table of the class-path manager is not the trivial one: both calls hold `Lock`,
+and the memoising helper is reached from `FindClassFile` -/
+example : pathLock "FindClassFile" = .W ∧ pathLock "AddNamespace" = .W ∧ pathLock "LoadClass" = .W ∧
+    methodWrites Generated.C10PathLocks.apiFacts "FindClassFile" = true ∧
+    methodWrites Generated.C10PathLocks.facts "findNamespaceNode" = true := by decide
+
+/-- a tiny file system: `/r1/A/C.php`, `/r2/A/C.php`, `/r2/A/F.php`, namespace `App` ↦ `/r1`, `/r2` -/
+def demoDisk : Model.Cpm.Disk where
+  exist p := p == "/r1" || p == "/r2" || p == "/r2/A"
+  sub p part := if part == "A" && (p == "/r1" || p == "/r2") then some (p ++ "/A") else none
+  file p cls := if (p == "/r1/A" || p == "/r2/A") && cls == "C" then some (p ++ "/C.php")
+    else if p == "/r2/A" && cls == "F" then some (p ++ "/F.php") else none
+
+/-- `FindClassFile` is a writer: the first lookup memoises `App\A` (here twice — the inner loop of
+`findNamespaceNode` goes on after its first hit with `current` already moved, so the second root's
+directory becomes a child of the first hit); the same lookup then answers from the memoised node.
+The sequential correspondence run confirms this trace on the real manager. -/
+example :
+    Model.Cpm.trace demoDisk Model.Cpm.init
+      [.add ["App"] "/r1", .add ["App"] "/r2", .find ["App", "A"] "C" (some "App\\A\\C"),
+       .find ["App", "A"] "C" (some "App\\A\\C"), .find ["App", "A"] "F" (some "App\\A\\F")]
+    = [.ok, .ok, .hit "/r2/A/C.php", .hit "/r1/A/C.php", .miss] := by decide
+
+/-- `C10_path_registered_visible` is not vacuous: the empty manager is well-formed, the path exists -/
+example : Proofs.Cpm.WF Model.Cpm.init ∧ demoDisk.exist "/r2/A" = true ∧
+    (Model.Cpm.find demoDisk (Model.Cpm.runOps demoDisk (Model.Cpm.addNamespace demoDisk Model.Cpm.init ["App", "A"] "/r2/A") [])
+      ["App", "A"] "F" none).2 = some "/r2/A/F.php" := by
+  refine ⟨Proofs.Cpm.wf_init, by decide, by decide⟩
 
 end C10
